@@ -37,7 +37,12 @@ MXSS = ["<style><!--</style><img src=x onerror=alert(1)>-->", "<title>&lt;img sr
         "<!--<img src=--><img src=x onerror=1//>", "<!--><script>x</script>-->", "<!---><script>x</script>-->", "<? ><script>x</script>", "</ ><script>x</script>", "<p style='x:expression(1)'>",
         "<svg><p><style><g title=\"</style><img src onerror=1>\">", "<svg><mn></p><use>", "<math><select></p><button>", "<title><b>x</b></title>", "<textarea><script>x</script></textarea>", "<script>1</script>",
         "<keygen autofocus onfocus=1>", "<details open ontoggle=1>", "<marquee onstart=1>", "<video><source onerror=1>", "<body onload=1>", "<input type=image src=x onerror=1>", "<isindex action=javascript:1>",
-        "<template><script>x</script></template>", "<frameset><frame src=javascript:1>", "&lt;script&gt;x&lt;/script&gt;", "&#60;img src=x onerror=1&#62;"]
+        "<template><script>x</script></template>", "<frameset><frame src=javascript:1>",
+        # doctype identifiers and attribute values whose safety rests on what the tokenizer can (not) put into them
+        "<!DOCTYPE html PUBLIC 'x><img src=x onerror=alert(1)>'>", "<!DOCTYPE html PUBLIC \"x><script>alert(1)</script>\">", "<!DOCTYPE html SYSTEM 'a><img src=x onerror=1>'>",
+        "<!DOCTYPE a><img onerror=1>", "<!DOCTYPE html PUBLIC \"-//x\" 'y><svg onload=1>'>", "<!DOCTYPE html PUBLIC 'a\"><img src=x onerror=1>'>",
+        "<a title=\"x\x0bonmouseover\">", "<p title='a&#11;onclick'>", "<a title=\"x\x1conmouseover\">", "<b title='a\x0conclick=1'>", "<i title=\"a\u2028onclick\" lang=\"b\xa0onfocus\">",
+        "<a title=\"x\x00onmouseover\">", "<a title=\"x&#x1f;onmouseover\" id=\"&#x85;onclick\">", "&lt;script&gt;x&lt;/script&gt;", "&#60;img src=x onerror=1&#62;"]
 
 
 def decode_input(data):
